@@ -35,12 +35,14 @@ def _expected_str(K, x):
     return '0x' + U.ba2hex(x[:k]) + ', 0b' + x[k:].to01()
 
 
-def h_str_shape(cname, n):
+def h_str_shape(cname, n, lsb0=False):
     def h(K):
+        import bitstring
         cls = classes()[cname]
         x = K.bits('x', n)
         pos = K.int('pos', 0, n) if is_stream(cls) else None
         s = mk(K, cls, x, pos)
+        bitstring.options.lsb0 = lsb0      # the printed form is a whole-value interpretation: the same text in both modes
         r = call(lambda: str(s))
         if not r.ok:
             return K.fail('str() raised', exc=r.excname)
@@ -83,12 +85,14 @@ def h_reparse(cname, n):
     return h
 
 
-def h_truncated(cname, n):
+def h_truncated(cname, n, lsb0=False):
     def h(K):
         import bitarray.util as U
+        import bitstring
         cls = classes()[cname]
         x = K.bits('x', n)
         s = mk(K, cls, x)
+        bitstring.options.lsb0 = lsb0
         r = call(lambda: str(s))
         if not r.ok:
             return K.fail('str() raised', exc=r.excname)
@@ -108,6 +112,7 @@ PP_FORMATS = {   # name -> (fmt, bits per group or None for default, digit alpha
     'bin8': ('bin8', 8, ['bin']), 'hex8': ('hex8', 8, ['hex']), 'bin': ('bin', 8, ['bin']), 'hex': ('hex', 8, ['hex']), 'oct12': ('oct12', 12, ['oct']), 'oct': ('oct', 12, ['oct']),
     'bin, hex': ('bin, hex', 8, ['bin', 'hex']), 'hex16, bin': ('hex16, bin', 16, ['hex', 'bin']), 'bin:0': ('bin:0', 0, ['bin']), 'hex:0': ('hex:0', 0, ['hex']),
     'bin12': ('bin12', 12, ['bin']), 'hex, oct': ('hex, oct', 12, ['hex', 'oct']), 'bin4': ('bin4', 4, ['bin']), 'hex:32': ('hex:32', 32, ['hex']), 'b, o': ('b, o', 6, ['bin', 'oct']),
+    'hex:1200': ('hex:1200', 1200, ['hex']),
 }
 BPD = {'bin': 1, 'hex': 4, 'oct': 3}
 DIGITS = {'bin': '01', 'hex': '0123456789abcdef', 'oct': '01234567'}
@@ -140,7 +145,7 @@ def h_pp(cname, n, fkey, lsb0, sep):
         r = call(lambda: s.pp(fmt, width=width, sep=sep, show_offset=show_offset, stream=out))
         bitstring.options.lsb0 = False
         if not r.ok:
-            explicit = any(ch.isdigit() for ch in fmt)
+            explicit = any(ch.isdigit() for ch in fmt) and bool(bpg)       # 'hex:0' asks for no grouping, like 'hex'
             unrepresentable = any(n % BPD[k] for k in kinds)
             if r.raised(ValueError) and unrepresentable and not explicit:
                 return True   # a length that the digit size does not divide cannot be shown without an explicit group length (no trailing-bits report)
@@ -163,8 +168,10 @@ def h_pp(cname, n, fkey, lsb0, sep):
         trailing = ''
         m = re.match(r'^\] \+ trailing_bits = (.*)$', tail)
         if m:
-            tb = bitstring.Bits(m.group(1))
-            trailing = tb.bin
+            tbr = call(lambda: bitstring.Bits(m.group(1)))
+            if not tbr.ok:
+                return K.fail('the reported trailing bits are not a complete bitstring literal (truncated with ...?)', text=m.group(1)[:20] + ' ... ' + m.group(1)[-20:])
+            trailing = tbr.value.bin
         elif tail != ']':
             return K.fail('pp closing line', got=tail)
         # collect the digits of each format column, in order
@@ -205,9 +212,15 @@ def h_pp(cname, n, fkey, lsb0, sep):
                 if not single and bpg:
                     return K.fail('a line with more than one group exceeds the requested width', line=ln, width=w)
         # digits must be exactly the data (minus reported trailing bits), in order; lsb0 prints lines in the same bit order
-        main = data[:len(data) - len(trailing)] if trailing else data
-        if data[len(main):] != trailing:
-            return K.fail('reported trailing bits are not the end of the data', trailing=trailing)
+        if lsb0:
+            # in lsb0 mode the display starts at the least significant end, so the bits left over are the most significant ones
+            main = data[len(trailing):]
+            if data[:len(trailing)] != trailing:
+                return K.fail('reported trailing bits are not the (most significant) end of the data in lsb0 mode', trailing=trailing)
+        else:
+            main = data[:len(data) - len(trailing)] if trailing else data
+            if data[len(main):] != trailing:
+                return K.fail('reported trailing bits are not the end of the data', trailing=trailing)
         for k in kinds:
             bits = ''.join(format(DIGITS[k].index(ch), f'0{BPD[k]}b') for ch in got[k])
             if lsb0:
@@ -215,6 +228,56 @@ def h_pp(cname, n, fkey, lsb0, sep):
             if bits[:len(main)] != main or len(bits) - len(main) >= BPD[k] + (bpg or 0):
                 return K.fail('pp digits are not exactly the digits of the data in order', fmt=fmt, kind=k, width=w, got_bits=bits[:64], expected=main[:64])
         return True
+    return h
+
+
+def h_array_pp(dtype, nbits, fmt, kind, bpg):
+    """Array.pp: the printed digits followed by the reported trailing bits are exactly the Array's data"""
+    def h(K):
+        import bitstring
+        data = _pattern(nbits)
+        a = bitstring.Array(dtype)
+        a.data = bitstring.BitArray(bin=data) if nbits else bitstring.BitArray()
+        width = K.int('width', 0, 200)
+        show_offset = K.bool('show_offset')
+        bitstring.options.no_color = True
+        out = io.StringIO()
+        r = call(lambda: a.pp(fmt, width, show_offset, out))
+        if not r.ok:
+            return K.fail('Array.pp raised', exc=r.excname, fmt=fmt)
+        text = out.getvalue()
+        if '\x1b' in text:
+            return K.fail('escape sequence in Array.pp output although options.no_color is set')
+        lines = text.split('\n')
+        if not (lines[0].startswith('<Array') and lines[0].endswith('[')):
+            return K.fail('Array.pp header', got=lines[0])
+        i = 1
+        digits = ''
+        while i < len(lines) and not lines[i].startswith(']'):
+            core = lines[i]
+            if show_offset:
+                j = core.find(': ')
+                if j < 0:
+                    return K.fail('offset column missing', line=core)
+                core = core[j + 2:]
+            for g in core.split():
+                if any(ch not in DIGITS[kind] for ch in g) or len(g) * BPD[kind] != bpg:
+                    return K.fail('a printed group is not one whole item of the format', group=g, line=lines[i])
+                digits += g
+            i += 1
+        if i >= len(lines):
+            return K.fail('Array.pp output has no closing bracket')
+        trailing = ''
+        m = re.match(r'^\] \+ trailing_bits = (.*)$', lines[i])
+        if m:
+            tbr = call(lambda: bitstring.Bits(m.group(1)))
+            if not tbr.ok:
+                return K.fail('the reported trailing bits are not a complete bitstring literal', text=m.group(1)[:40])
+            trailing = tbr.value.bin
+        elif lines[i] != ']':
+            return K.fail('Array.pp closing line', got=lines[i])
+        bits = ''.join(format(DIGITS[kind].index(ch), f'0{BPD[kind]}b') for ch in digits)
+        return K.check(bits + trailing == data, 'Array.pp: printed digits + reported trailing bits are not exactly the data', fmt=fmt, printed_bits=len(bits), trailing=trailing, data_bits=len(data))
     return h
 
 
@@ -250,12 +313,29 @@ def conditions(tier):
             add(f'C19.reparse[{c},n={n}]', h_reparse(c, n), f'all {n}-bit contents (solver-enumerated), all stream positions', n=n)
     for n in ([996, 1000, 1001, 1004] if q else [996, 997, 998, 999, 1000, 1001, 1002, 1003, 1004, 2000, 4001]):
         add(f'C19.truncation[Bits,n={n}]', h_truncated('Bits', n), f'all {n}-bit contents (symbolic)', n=n)
+    for n in ([1001, 1003] if q else [997, 1001, 1003, 2001]):
+        add(f'C19.truncation[Bits,n={n},lsb0]', h_truncated('Bits', n, True), f'all {n}-bit contents (symbolic); options.lsb0 set', n=n)
+    for c in (['Bits'] if q else ['Bits', 'BitStream']):
+        for n in ([5, 32, 33, 35] if q else [0, 5, 31, 32, 33, 34, 35, 36, 65]):
+            add(f'C19.str-shape[{c},n={n},lsb0]', h_str_shape(c, n, True), f'all {n}-bit contents (symbolic), all stream positions; options.lsb0 set', n=n)
+    for n in ([1150] if q else [1004, 1150, 2403]):
+        for lsb0 in (False, True):
+            add(f"C19.pp[Bits,hex:1200,n={n}{',lsb0' if lsb0 else ''}]", h_pp('Bits', n, 'hex:1200', lsb0, ' '), f'width in [0,200] x show_offset; group of 1200 bits: more than 1000 trailing bits; {n}-bit concrete pattern', n=n, fmt='hex:1200')
+    for dtype, nbits, fmt, kind, bpg in [('uint8', 40, 'hex16', 'hex', 16), ('uint8', 40, None, None, None), ('uint8', 43, 'hex8', 'hex', 8), ('uint5', 23, 'bin5', 'bin', 5), ('uint16', 40, 'hex8', 'hex', 8),
+                                         ('uint8', 40, 'bin24', 'bin', 24), ('hex8', 19, 'oct6', 'oct', 6), ('uint8', 0, 'hex8', 'hex', 8)]:
+        if fmt is None:
+            continue
+        add(f'C19.array-pp[{dtype},{nbits} bits,{fmt}]', h_array_pp(dtype, nbits, fmt, kind, bpg), f'width in [0,200] x show_offset; Array({dtype!r}) over a {nbits}-bit concrete pattern printed as {fmt!r}', fmt=fmt)
     for fk in (['bin8', 'hex', 'oct12', 'bin, hex', 'bin:0', 'hex16, bin'] if q else list(PP_FORMATS)):
+        if fk == 'hex:1200':
+            continue
         for n in ([0, 24, 45, 48] if q else [0, 7, 24, 45, 48, 96]):
             if q and n == 45 and not any(ch.isdigit() for ch in fk):
                 continue   # without an explicit group length a 45-bit value cannot be shown in hex/oct
             for lsb0 in ((False,) if q else (False, True)):
                 add(f"C19.pp[Bits,{fk},n={n}{',lsb0' if lsb0 else ''}]", h_pp('Bits', n, fk, lsb0, ' '), f'width in [0,200] x show_offset; format {fk!r}; {n}-bit concrete pattern', n=n, fmt=fk)
+        if fk == 'hex:1200':
+            continue
         if fk in ('bin, hex', 'hex16, bin', 'bin8', 'hex, oct') and (not q or fk in ('bin, hex', 'bin8')):
             add(f'C19.pp[Bits,{fk},n=48,sep=" | "]', h_pp('Bits', 48, fk, False, ' | '), f"width in [0,200] x show_offset; format {fk!r}; separator ' | '", n=48, fmt=fk)
         if not q:
